@@ -252,14 +252,15 @@ def gen_C08(w, tier):
     for name, ps in w.ps.items():
         if ps.base and ps.toy:
             continue
-        reps = 12 if ps.kind == "ed" or ps.toy else 4
+        reps = 12 if ps.kind == "ed" or ps.toy else 7
         if big:
             reps *= 3
         ident = identity_bytes(w, ps)
+        edges = w.base_edges(ps)
         for i in range(reps):
             side = "ABS"[i % 3]
             pw, ids = w.password(), (r.choice(IDS), r.choice(IDS))
-            x = w.scalar(ps)
+            x = edges[i] % ps.q if i < len(edges) else w.scalar(ps)      # every base edge scalar once, then random
             peer = peer_message(w, ps, side, w.scalar(ps, 0))
             sc = w.scenario("C08/%s/%d" % (name, i), ("set:" + ("toy" if ps.toy else name), "side:" + side))
             k = r.choice([1, 1, 2, 3])
@@ -465,10 +466,11 @@ def gen_C10(w, tier):
         if ps.base and ps.toy:
             continue
         reps = (8 if ps.kind == "ed" or ps.toy else 3) * (8 if big else 1)
-        for i in range(reps):
+        edges = w.base_edges(ps)
+        for i in range(max(reps, len(edges))):
             side = "ABS"[i % 3]
             pw, ids = w.password(), (r.choice(IDS), r.choice(IDS))
-            x = w.scalar(ps)
+            x = edges[i] % ps.q if i < len(edges) else w.scalar(ps)
             sc = w.scenario("C10/%s/%d" % (name, i), ("set:" + ("toy" if ps.toy else name), "side:" + side))
             a = sc.new(side, ps, pw, ids[0], ids[1], w.entropy_for(ps, x))
             m = sc.start(a)
